@@ -229,6 +229,14 @@ func newC08(prelude string) *c08Run {
 		x.r.highest = 1
 		x.r.z = 1
 		x.r.streams[1] = &rstream{st: sClosed, closedBy: "peer-rst", hdrDone: true}
+	case "slots-taken":
+		// two requests whose handlers keep running hold both slots: every stream the explored part opens is
+		// refused, and roles A and B name refused streams
+		for _, id := range []uint32{1, 3} {
+			h.SendFrames(peer.Headers(id, reqBlock(id, "GET"), peer.HeadersOpt{EndStream: true, EndHeaders: true, Pad: -1}))
+			x.r.streams[id] = &rstream{st: sHCR, hdrDone: true, dispatched: true, running: true, legal: true, callIdx: len(h.Calls) - 1}
+		}
+		x.r.highest = 3
 	}
 	return x
 }
@@ -899,9 +907,9 @@ func runC08(c *fw.Ctx) {
 		single  bool
 		depth   int
 	}
-	cfgs := []cfg{{"none", false, 3}, {"completed", false, 3}, {"none", true, 5}, {"peer-reset", false, 2}}
+	cfgs := []cfg{{"none", false, 3}, {"completed", false, 3}, {"none", true, 5}, {"peer-reset", false, 2}, {"slots-taken", false, 2}}
 	if thorough {
-		cfgs = []cfg{{"none", false, 4}, {"completed", false, 4}, {"peer-reset", false, 3}, {"none", true, 7}}
+		cfgs = []cfg{{"none", false, 4}, {"completed", false, 4}, {"peer-reset", false, 3}, {"none", true, 7}, {"slots-taken", false, 3}}
 	}
 	sampled := 0
 	for _, cf := range cfgs {
